@@ -24,6 +24,7 @@ import (
 	"encoding/json"
 	"fmt"
 	"os"
+	"path/filepath"
 	"sort"
 	"strconv"
 	"strings"
@@ -151,6 +152,7 @@ func run(c *core.Ctx) int {
 		c.Finish(0, 0, "role table does not match the host module")
 		return 2
 	}
+	os.RemoveAll(filepath.Join(c.Out, "children")) // logs of children that died in earlier runs
 	tmp, err := os.MkdirTemp("", "c15-")
 	if err != nil {
 		fmt.Println("BROKEN:", err)
